@@ -294,6 +294,9 @@ func (s *parallelSolverImpl) Solve(
 	})
 
 	var solutionsMutex sync.Mutex
+	// bestSolution is read by the workers and written by the goroutine that
+	// collects their results.
+	var bestSolutionMutex sync.Mutex
 	iterationsLeft := atomic.Int64{}
 	iterationsLeft.Store(int64(interpretedParallelSolveOptions.Iterations))
 	var waitGroup sync.WaitGroup
@@ -318,7 +321,9 @@ func (s *parallelSolverImpl) Solve(
 							waitGroup.Done()
 						}()
 
+						bestSolutionMutex.Lock()
 						solution := bestSolution.Copy()
+						bestSolutionMutex.Unlock()
 
 						solutionsMutex.Lock()
 						if len(solutions) > 0 {
@@ -431,7 +436,10 @@ func (s *parallelSolverImpl) Solve(
 				continue
 			}
 
-			bestSolution = solverResult.Solution.Copy()
+			newBestSolution := solverResult.Solution.Copy()
+			bestSolutionMutex.Lock()
+			bestSolution = newBestSolution
+			bestSolutionMutex.Unlock()
 
 			reportBestSolution(solutionContainer{
 				Solution:   solverResult.Solution.Copy(),
